@@ -10,7 +10,7 @@
 //!
 //!   new F | newc F            allocate a node (Gc::new / Gc::new_cyclic); F=0 plain, F>0 its finalizer clones
 //!                             every handle stored in the node F times into the global root list (resurrection)
-//!   link A B | unlink A B | load A B     push clone of B into A / remove one handle to B from A / clone it out
+//!   link A B [K] | unlink A B | load A B   store a clone of B in A (container shape K, default: rotating) / remove one handle to B from A / clone it out
 //!   clone A | drop A          external strong handle
 //!   weak A | eph K V          WeakGc::new / Ephemeron::new(&K, V.clone())
 //!   clonee E | drope E | storee A E | unstoree A E | loade A E
@@ -59,6 +59,40 @@ impl Drop for DropLog {
     }
 }
 
+/// Several `Gc`s inside one struct behind a `GcRefCell` (how the engine's object data looks).
+#[derive(Trace, Finalize)]
+struct Pair {
+    left: Option<Gc<Node>>,
+    right: Option<Gc<Node>>,
+    #[unsafe_ignore_trace]
+    pad: u32,
+}
+
+/// Enum payloads: a bare `Gc`, a boxed one, one inside a tuple, one inside nested containers.
+#[derive(Trace, Finalize)]
+enum Slot {
+    One(Gc<Node>),
+    Boxed(Box<Gc<Node>>),
+    Tuple((Gc<Node>, u32)),
+    Nested(Vec<Option<Gc<Node>>>),
+}
+
+impl Slot {
+    fn gc(&self) -> &Gc<Node> {
+        match self {
+            Slot::One(g) => g,
+            Slot::Boxed(b) => b,
+            Slot::Tuple(t) => &t.0,
+            Slot::Nested(v) => v.iter().flatten().next().expect("nested slot holds one handle"),
+        }
+    }
+}
+
+/// The node payload.  The model sees one multiset of stored `Gc` handles per node; here they are spread over the
+/// container shapes the engine uses (`Vec<Gc>`, `Option<Gc>`, a struct with several `Gc`s in a `GcRefCell`, enum
+/// variants, `Box`, tuples, nested `Vec<Option<..>>`, a `BTreeMap` value), all traced / finalized through
+/// `#[derive(Trace, Finalize)]` and boa_gc's container impls, so `trace`, `trace_non_roots` and `run_finalizer` of
+/// the derive macro are compared against the model's edge set on every history.
 #[derive(Trace)]
 struct Node {
     #[unsafe_ignore_trace]
@@ -67,7 +101,13 @@ struct Node {
     fin: u8,
     #[unsafe_ignore_trace]
     dl: DropLog,
+    #[unsafe_ignore_trace]
+    seq: Cell<u32>,
     children: GcRefCell<Vec<Gc<Node>>>,
+    opt: GcRefCell<Option<Gc<Node>>>,
+    pair: GcRefCell<Pair>,
+    slots: GcRefCell<Vec<Slot>>,
+    table: GcRefCell<BTreeMap<u32, Gc<Node>>>,
     ephs: GcRefCell<Vec<StoredEph>>,
     maps: GcRefCell<Vec<StoredMap>>,
 }
@@ -84,9 +124,7 @@ impl Finalize for Node {
         for _ in 0..times {
             let _ = ROOTS.try_with(|r| {
                 if let Ok(mut r) = r.try_borrow_mut() {
-                    for c in self.children.borrow().iter() {
-                        r.push((c.id, Strong::Node(c.clone())));
-                    }
+                    self.for_each(|c| r.push((c.id, Strong::Node(c.clone()))));
                     for m in self.maps.borrow().iter() {
                         r.push((m.id, Strong::Map(m.map.clone())));
                     }
@@ -110,7 +148,12 @@ impl Node {
             id,
             fin,
             dl: DropLog { id, canary: Cell::new(MAGIC ^ u64::from(id)) },
+            seq: Cell::new(0),
             children: GcRefCell::new(Vec::new()),
+            opt: GcRefCell::new(None),
+            pair: GcRefCell::new(Pair { left: None, right: None, pad: id }),
+            slots: GcRefCell::new(Vec::new()),
+            table: GcRefCell::new(BTreeMap::new()),
             ephs: GcRefCell::new(ephs),
             maps: GcRefCell::new(Vec::new()),
         }
@@ -118,14 +161,128 @@ impl Node {
     fn alive(&self) -> bool {
         self.dl.canary.get() == MAGIC ^ u64::from(self.id)
     }
+    /// Stores a handle in the container shape number `k` (falls back to the `Vec` when a single slot is taken).
+    fn put(&self, k: u32, g: Gc<Node>) {
+        match k % 8 {
+            1 if self.opt.borrow().is_none() => *self.opt.borrow_mut() = Some(g),
+            2 if self.pair.borrow().left.is_none() => self.pair.borrow_mut().left = Some(g),
+            2 if self.pair.borrow().right.is_none() => self.pair.borrow_mut().right = Some(g),
+            3 => self.slots.borrow_mut().push(Slot::One(g)),
+            4 => self.slots.borrow_mut().push(Slot::Boxed(Box::new(g))),
+            5 => self.slots.borrow_mut().push(Slot::Tuple((g, k))),
+            6 => self.slots.borrow_mut().push(Slot::Nested(vec![None, Some(g), None])),
+            7 => {
+                let key = self.seq.get();
+                self.seq.set(key + 1);
+                self.table.borrow_mut().insert(key, g);
+            }
+            _ => self.children.borrow_mut().push(g),
+        }
+    }
+    /// Every stored `Gc<Node>` handle, in a fixed order of the containers.
+    fn for_each(&self, mut f: impl FnMut(&Gc<Node>)) {
+        for c in self.children.borrow().iter() {
+            f(c);
+        }
+        if let Some(c) = self.opt.borrow().as_ref() {
+            f(c);
+        }
+        {
+            let p = self.pair.borrow();
+            if let Some(c) = p.left.as_ref() {
+                f(c);
+            }
+            if let Some(c) = p.right.as_ref() {
+                f(c);
+            }
+        }
+        for sl in self.slots.borrow().iter() {
+            f(sl.gc());
+        }
+        for c in self.table.borrow().values() {
+            f(c);
+        }
+    }
+    /// A clone of the first stored handle to node `id`.
+    fn find_clone(&self, id: u32) -> Option<Gc<Node>> {
+        let mut out = None;
+        self.for_each(|c| {
+            if out.is_none() && c.id == id {
+                out = Some(c.clone());
+            }
+        });
+        out
+    }
+    /// Removes (and returns) the first stored handle to node `id`.
+    fn find_take(&self, id: u32) -> Option<Gc<Node>> {
+        let pos = self.children.borrow().iter().position(|c| c.id == id);
+        if let Some(p) = pos {
+            return Some(self.children.borrow_mut().remove(p));
+        }
+        if self.opt.borrow().as_ref().is_some_and(|c| c.id == id) {
+            return self.opt.borrow_mut().take();
+        }
+        if self.pair.borrow().left.as_ref().is_some_and(|c| c.id == id) {
+            return self.pair.borrow_mut().left.take();
+        }
+        if self.pair.borrow().right.as_ref().is_some_and(|c| c.id == id) {
+            return self.pair.borrow_mut().right.take();
+        }
+        let pos = self.slots.borrow().iter().position(|sl| sl.gc().id == id);
+        if let Some(p) = pos {
+            // the derive macro gives `Slot` a `Drop` impl, so the handle cannot be moved out: clone it, then drop the slot
+            let sl = self.slots.borrow_mut().remove(p);
+            let g = sl.gc().clone();
+            drop(sl);
+            return Some(g);
+        }
+        let key = self.table.borrow().iter().find(|(_, c)| c.id == id).map(|(k, _)| *k);
+        if let Some(k) = key {
+            return self.table.borrow_mut().remove(&k);
+        }
+        None
+    }
 }
 
-type Map = WeakMap<Node, Gc<Node>>;
+/// The value of an ephemeron / weak-map entry: the `Gc` sits either directly in an `Option` or inside nested containers
+/// behind a `GcRefCell`, again traced through the derive macro (the model sees one value handle).
+#[derive(Trace, Finalize)]
+struct Val {
+    direct: Option<Gc<Node>>,
+    cell: GcRefCell<Vec<Option<Gc<Node>>>>,
+    #[unsafe_ignore_trace]
+    tag: u32,
+}
+
+impl Val {
+    fn new(g: Gc<Node>, tag: u32) -> Self {
+        if tag % 2 == 0 {
+            Val { direct: Some(g), cell: GcRefCell::new(Vec::new()), tag }
+        } else {
+            Val { direct: None, cell: GcRefCell::new(vec![None, Some(g)]), tag }
+        }
+    }
+    fn get(&self) -> Gc<Node> {
+        match &self.direct {
+            Some(g) => g.clone(),
+            None => self.cell.borrow().iter().flatten().next().expect("value holds one handle").clone(),
+        }
+    }
+}
+
+/// Never called (see the note on `Clone for Node`).
+impl Clone for Val {
+    fn clone(&self) -> Self {
+        unreachable!("Val is never cloned")
+    }
+}
+
+type Map = WeakMap<Node, Val>;
 
 #[derive(Trace, Finalize)]
 enum EphH {
     Weak(WeakGc<Node>),
-    Eph(Ephemeron<Node, Gc<Node>>),
+    Eph(Ephemeron<Node, Val>),
 }
 
 impl EphH {
@@ -171,6 +328,7 @@ struct H {
     ext_e: BTreeMap<u32, Vec<EphH>>,
     next_s: u32,
     next_e: u32,
+    link_seq: u32,
     base_colls: usize,
 }
 
@@ -232,8 +390,11 @@ impl H {
             "link" => {
                 let (Some(a), Some(b)) = (arg(1), arg(2)) else { return inv() };
                 let (Some(ga), Some(sb)) = (self.node(a), self.strong(b)) else { return inv() };
+                // container shape: explicit third argument, else rotating with the number of links of this history
+                let k = arg(3).unwrap_or(self.link_seq);
+                self.link_seq += 1;
                 match sb {
-                    Strong::Node(gb) => ga.children.borrow_mut().push(gb),
+                    Strong::Node(gb) => ga.put(k, gb),
                     Strong::Map(m) => ga.maps.borrow_mut().push(StoredMap { id: b, map: m }),
                 }
                 "ok".into()
@@ -242,18 +403,16 @@ impl H {
                 let (Some(a), Some(b)) = (arg(1), arg(2)) else { return inv() };
                 let Some(ga) = self.node(a) else { return inv() };
                 let take = w[0] == "unlink";
-                let pos = ga.children.borrow().iter().position(|c| c.id == b);
-                if let Some(p) = pos {
-                    if take {
-                        let g = ga.children.borrow_mut().remove(p);
+                if take {
+                    if let Some(g) = ga.find_take(b) {
                         drop(g);
-                    } else {
-                        let g = ga.children.borrow()[p].clone();
-                        if !g.alive() {
-                            return "UAF".into();
-                        }
-                        self.add_s(b, Strong::Node(g));
+                        return "ok".into();
                     }
+                } else if let Some(g) = ga.find_clone(b) {
+                    if !g.alive() {
+                        return "UAF".into();
+                    }
+                    self.add_s(b, Strong::Node(g));
                     return "ok".into();
                 }
                 let pos = ga.maps.borrow().iter().position(|m| m.id == b);
@@ -299,7 +458,7 @@ impl H {
                 let (Some(gk), Some(gv)) = (self.node(k), self.node(v)) else { return inv() };
                 let eid = self.next_e;
                 self.next_e += 1;
-                let e = Ephemeron::new(&gk, gv);
+                let e = Ephemeron::new(&gk, Val::new(gv, eid));
                 self.add_e(eid, EphH::Eph(e));
                 format!("e {eid}")
             }
@@ -367,7 +526,7 @@ impl H {
                         if wk.is_upgradable() { "unit".into() } else { "none".into() }
                     }
                     EphH::Eph(ep) => {
-                        let got = ep.value().map(|v| (*v).clone());
+                        let got = ep.value().map(|v| v.get());
                         match got {
                             Some(g) => {
                                 if !g.alive() {
@@ -397,7 +556,7 @@ impl H {
                 let (Some(mut mm), Some(gk), Some(gv)) = (self.map(m), self.node(k), self.node(v)) else { return inv() };
                 let eid = self.next_e;
                 self.next_e += 1;
-                mm.insert(&gk, gv);
+                mm.insert(&gk, Val::new(gv, eid));
                 format!("e {eid}")
             }
             "wmrem" => {
@@ -411,7 +570,8 @@ impl H {
                 let r = match mm.get(&gk) {
                     Some(e) => match e.value() {
                         Some(v) => {
-                            if v.alive() { format!("some {}", v.id) } else { "UAF".into() }
+                            let g = v.get();
+                            if g.alive() { format!("some {}", g.id) } else { "UAF".into() }
                         }
                         None => "cleared".into(),
                     },
@@ -426,11 +586,13 @@ impl H {
                     return "UAF".into();
                 }
                 let mut kids: Vec<u32> = Vec::new();
-                for c in ga.children.borrow().iter() {
-                    if !c.alive() {
-                        return "UAF".into();
-                    }
+                let mut dead = false;
+                ga.for_each(|c| {
+                    dead |= !c.alive();
                     kids.push(c.id);
+                });
+                if dead {
+                    return "UAF".into();
                 }
                 for m in ga.maps.borrow().iter() {
                     kids.push(m.id);
@@ -483,6 +645,7 @@ impl H {
                 TEARDOWN.with(|t| t.set(false));
                 self.next_s = 0;
                 self.next_e = 0;
+                self.link_seq = 0;
                 self.base_colls = boa_gc::verif::stats().4;
                 match r {
                     Ok(()) => "reset".into(),
